@@ -147,6 +147,10 @@ def union_case(fa, cid, raw, datum, tuples, badhint):
         c["named"] = {"ok": False, "exc": proj.pexc(e)["exc"]}
         c["rewrite"] = {"ok": False}
     try:
+        c["named_rro"] = {"ok": True, "v": proj.pv(fa.schemaless_reader(io.BytesIO(data), raw, return_named_type=True, return_record_name_override=True))}
+    except Exception as e:  # noqa: BLE001
+        c["named_rro"] = {"ok": False, "exc": proj.pexc(e)["exc"]}
+    try:
         c["recname"] = {"ok": True, "v": proj.pv(fa.schemaless_reader(io.BytesIO(data), raw, return_record_name=True))}
     except Exception as e:  # noqa: BLE001
         c["recname"] = {"ok": False, "exc": proj.pexc(e)["exc"]}
